@@ -89,6 +89,30 @@ CHECKS = {
             "DESIGN.md section 5, C15"),
 }
 
+# additions made after the independently seeded changes (rounds 1-3); appended to the level text
+EXTRA = {
+    "C01": "Hostile values: Stringer / error implementations that panic.",
+    "C02": "64-bit integers beside float32/float64 rounding ties; zero-padded and prefixed numeric strings.",
+    "C03": "Long lists (1023..3000, thorough 70000) with predicates that depend on the absolute index.",
+    "C04": "Direct probes: callbacks that panic at their k-th invocation (receiver and earlier results untouched), variadic arguments spread from a slice the caller keeps.",
+    "C05": "Earlier results re-checked after later calls on spare-capacity receivers; operands of 260..1500 elements; pointer elements with equal contents but different identity.",
+    "C06": "Burst histories up to 66000 (thorough 262200) held elements with GC paused.",
+    "C07": "Back-pressure runs with a blocking Take() consumer and a delivery-progress monitor; 'no limit' buffer sizes.",
+    "C08": "Phased bursts above 1024 held values; a self-refilling BufferedChannelQueue under the wrapper; one LinkedListQueue behind both wrappers in phases.",
+    "C09": "Two pools on one job queue; slow panic handlers; standby-0 pools always sampled; boundary timeouts through ScheduleWithTimeout / InvokeWithTimeout.",
+    "C10": "Values published on derived publishers; re-subscription of copied subscription values; deliveries pending on a busy SubscribeOn handler while subscriptions change.",
+    "C11": "Branching compositions; pending deliveries of a counting MonadIO; carried values that are themselves MonadIOs; re-configuration in flight.",
+    "C12": "Close from the running work with buffered items and blocked senders; closed while busy; timed-out Asks as messages.",
+    "C13": "Caller supplied reply channels; near-timeout then long-timeout histories (old timer-channel semantics selected); non-positive timeouts; requests queued behind a busy actor.",
+    "C14": "Target held back until its request channel is full; YieldFromIO whose effect uses YieldFrom; back-to-back Start calls.",
+    "C15": "Caller completing inside its own YieldFrom; job queue closed under an open pool; pool churn (thousands of short-lived pools closed under load).",
+    "C16": "Long lists; nested PMap; one option value reused across calls.",
+    "C17": "Connection-level faults on the first round trip only; response bodies up to 4 MiB on loopback; slice / map / value body types.",
+    "C18": "Two instances on one client; the held client with a replaced Transport; long histories with redirects and many refused requests.",
+    "C19": "Second and mixed record types; forked builders; extreme keys; signed zeros for stability.",
+    "C20": "MarkDone / Result inside the curried function; nested sum types; panicking effects; Equal patterns on pointers.",
+}
+
 NOT_YET = "check not built yet in this session (runtime monitoring applies; see DESIGN.md section 5)"
 
 
@@ -111,7 +135,7 @@ def main():
                 "evidence_file": f"/verif/evidence/{pid}.json",
                 "replay_cmd_template": f"./check.sh {pid} --replay {{path}}",
                 "engine": "verifrun",
-                "level_claimed": {"category": cat, "text": text, "design_ref": ref},
+                "level_claimed": {"category": cat, "text": text + (" Added after the seeded changes: " + EXTRA[pid] if pid in EXTRA else ""), "design_ref": ref},
                 "level_note": note,
                 "technique": tech,
             })
